@@ -71,3 +71,9 @@ def _f7(case, violation):
 def _f15(case, violation):
     """F15: established by the engine the same way as F7 (reference model re-run with exactly this quirk on)."""
     return violation.get("class") == "SCOPE-FILL-CAPTURED-VARIABLES-MISORDERED"
+
+
+@matcher("c03-f7-and-f15-composed")
+def _f7f15(case, violation):
+    """Composition of F7 and F15: the real output equals the reference model with BOTH quirks on (and neither alone)."""
+    return violation.get("class") == "SCOPE-F7-AND-F15-COMPOSED"
